@@ -23,7 +23,7 @@ TRANSLATORS = [tr_units.run]
 OBLIGATIONS = ["Allfed.C11." + n for n in [
     "C11_units_agree", "C11_closed", "C11_doc_labels", "C11_modelled", "C11_sequences", "C11_sequences_run", "C11_sequences_units",
     "C11_operands_unchanged", "C11_reject_mixed", "C11_ratio_commutes", "C11_ratio_keeps_label",
-    "C11_predicates2", "C11_predicates1", "C11_geZero_scalar_series",
+    "C11_predicates", "C11_predicates2", "C11_predicates1", "C11_geZero_scalar_series", "asSeries_labelOK", "render_addEach", "render_addPer",
     "C11_sum_label", "C11_month_label", "C11_index_label", "C11_quotient_label", "C11_setters_sync",
     "F1_stale_units_counterexample", "F2_ratio_label_counterexample", "F3_index_label_counterexample",
     "F4_doubled_suffix_counterexample", "F5_any_predicates_counterexample", "F5_all_gt_zero_counterexample",
@@ -972,8 +972,28 @@ def run_batch(ctx, runs):
                 report(ctx, r.cfg, r, probs, viol, do_shrink=False)
 
 
+def live_vocabulary(ctx):
+    """the generator's unit names are the keys of the live multiplier dictionaries (the same tables tr_units translates)"""
+    global BASES_K, BASES_F
+    r = Runner((True, True, (2100.0, 47.0, 51.0, 7.8e9)))
+    f0 = r.Food(1.0, 1.0, 1.0)
+    tabs = [list(f0.get_kcal_multipliers()), list(f0.get_fat_multipliers()), list(f0.get_protein_multipliers())]
+
+    def bases(keys):
+        return [k for k in keys if not k.endswith(EACH) and not k.endswith(PER)]
+    bk, bf, bp = bases(tabs[0]), bases(tabs[1]), bases(tabs[2])
+    for keys, bs in zip(tabs, (bk, bf, bp)):
+        if sorted(keys) != sorted(b + s for b in bs for s in ("", EACH, PER)) or any("each month" in b or "per month" in b for b in bs):
+            ctx.disagree("vocabulary", {"table": keys}, keys, "not of the form base / base each month / base per month")
+    if bk != BASES_K or bf != BASES_F or bp != BASES_F:
+        ctx.count("vocabulary-changed")
+        BASES_K, BASES_F = bk, [b for b in bf if b in bp] or bf
+    ctx.count("vocabulary-names", sum(len(t) for t in tabs))
+
+
 def correspondence(ctx, nseq=None, maxlen=None):
     rng = ctx.rng
+    live_vocabulary(ctx)
     parser_roundtrip(ctx)
     # corpus first, under all four flag settings
     runs = []
